@@ -411,6 +411,167 @@ def gen_ops(rng, m):
     return ops
 
 
+# --------------------------------- translator validation: gen/FirstOrder.v against the running code
+def validate_first_order(ctx, table):
+    """FEMElementalAttribute._to_first_order is run on a probe array for EVERY element type (the
+    domain is finite) and compared, inside Coq, with the generated first_order_arity"""
+    res = run_impl(ctx, [{'id': 0, 'probe_first_order': True}], tag='probe')[0]
+    if 'error' in res:
+        ctx.violation('tie-broken', {'error': res['error'][-400:]}, 'probe of _to_first_order runs', 'child raised',
+                      'translator validation (first_order_arity)', found_input=False,
+                      signature={'kind': 'translator-validation', 'table': 'first_order_arity', 'what': 'probe-failed'})
+        return
+    obs = res['probe']                       # [type index, 'same' | k | None] ; -1 = not a column prefix
+    def lit(v):
+        return 'Some None' if v == 'same' else 'None' if v is None else f'Some (Some {int(v)}%nat)'
+    items = ';'.join(f'({i}%nat, {lit(v)})' for i, v in obs if v != -1)
+    txt = (HEADER + f'Definition probes : list (nat * option (option nat)) := [{items}].\n'
+           'Definition oeq (a b : option (option nat)) := match a, b with\n'
+           '  | None, None => true | Some None, Some None => true | Some (Some x), Some (Some y) => Nat.eqb x y | _, _ => false end.\n'
+           'Goal True. idtac "@@ failing". Abort.\n'
+           'Eval vm_compute in map fst (filter (fun c => negb (oeq (first_order_arity (fst c)) (snd c))) probes).\n')
+    rc, out, err = ctx.coq_eval('ProbeFirstOrder', txt, timeout=600)
+    bad = None
+    if rc == 0:
+        t = lib.parse_marked(out).get('failing', '').split(': list')[0]
+        bad = [int(x) for x in re.findall(r'\d+', t.replace('%nat', ''))]
+    weird = [i for i, v in obs if v == -1]
+    ctx.notes['translator_validation_first_order'] = {'types_probed': len(obs), 'differ': bad, 'not_a_column_prefix': weird}
+    if bad is None or bad or weird or len(obs) != len(ELEMENT_TYPES):
+        ctx.violation('tie-broken', {'observed': obs, 'translated': table}, 'generated table = behaviour of the code',
+                      {'types_that_differ': bad, 'not_a_column_prefix': weird},
+                      'translator validation (first_order_arity)', found_input=bool(bad or weird),
+                      signature={'kind': 'translator-validation', 'table': 'first_order_arity'},
+                      what='gen/FirstOrder.v differs from FEMElementalAttribute._to_first_order on a probe array')
+
+
+# ------------------------------------------- polyhedron meshes with the 'face' variable
+def gen_poly(rng):
+    """1-4 polyhedra on shared nodes; the 'face' variable lists node POSITIONS per face (the cut
+    renumbers them through FEMData.convert_polyhedron); ids sparse / large, storage shuffled,
+    unreferenced nodes; selection = subset in random order, sometimes with an id that does not exist"""
+    n_nodes = rng.randrange(5, 16)
+    mode = rng.choice(['dense', 'sparse', 'large'])
+    pool = set()
+    while len(pool) < n_nodes:
+        pool.add({'dense': rng.randrange(0, 3 * n_nodes), 'sparse': rng.randrange(1, 100000),
+                  'large': rng.choice([rng.randrange(1, 60), rng.randrange(2 ** 31, 2 ** 31 + 60)])}[mode])
+    ids = list(pool)
+    rng.shuffle(ids)
+    if rng.random() < 0.15:
+        ids.sort()
+    n_el = rng.randrange(1, 5)
+    eids = rng.sample(range(1, 50 if mode != 'large' else 2 ** 33), n_el)
+    conn, faces = [], []
+    usable = ids[:max(4, n_nodes - rng.choice([0, 0, 1, 2]))]     # the rest stays unreferenced
+    for _ in range(n_el):
+        c = rng.sample(usable, rng.randrange(4, min(9, len(usable) + 1)))
+        fs = [rng.sample(c, rng.randrange(3, min(6, len(c) + 1))) for _ in range(rng.randrange(2, 7))]
+        if rng.random() < 0.1:
+            fs = []                                               # a polyhedron without faces: row [0]
+        conn.append(c)
+        faces.append(fs)
+    sel = rng.sample(eids, rng.randrange(1, n_el + 1))
+    if rng.random() < 0.2:
+        sel.insert(rng.randrange(len(sel) + 1), max(eids) + 1 + rng.randrange(5))
+    if rng.random() < 0.05:
+        sel = [max(eids) + 7]
+    return {'nodes': {'ids': ids, 'rows': [[i % 997, k, i % 7] for k, i in enumerate(ids)]},
+            'eids': eids, 'conn': conn, 'faces': faces, 'sel': sel, 'idmode': mode}
+
+
+def poly_oracle(q, r):
+    """the property on the implementation's result, evaluated in Python (for the report)"""
+    bad = []
+    want = [i for i in q['sel'] if i in q['eids']]
+    if r.get('raised') is not None:
+        return [] if not want else [('cut-raises', r['raised'])]
+    if not want:
+        return [('cut-of-nothing-does-not-raise', None)]
+    o = r['result']
+    if sorted(o['eids']) != sorted(want):
+        bad.append(('retained-elements', None))
+    by_id = dict(zip(q['eids'], zip(q['conn'], q['faces'])))
+    xyz0 = dict(zip(q['nodes']['ids'], q['nodes']['rows']))
+    if any(xyz0.get(i) != row for i, row in zip(o['nodes'], o['xyz'])):
+        bad.append(('node-coordinates', None))
+    if o['face_ids'] != o['eids']:
+        bad.append(('face-variable-on-other-elements', None))
+    for i, c, fid, row in zip(o['eids'], o['conn'], o['face_ids'], o['face_rows']):
+        if i not in by_id:
+            continue
+        if c != by_id[i][0]:
+            bad.append(('element-connectivity', i))
+        # decode the row through the node table of the RESULT
+        try:
+            m, at, got = row[0], 1, []
+            for _ in range(m):
+                k = row[at]
+                got.append([o['nodes'][p] for p in row[at + 1:at + 1 + k]])
+                at += 1 + k
+        except Exception:
+            got = None
+        if fid in by_id and got != by_id[fid][1]:
+            bad.append(('faces-name-other-nodes-than-before', fid))
+    if set(o['nodes']) != {v for i in want for v in by_id[i][0]} or len(set(o['nodes'])) != len(o['nodes']):
+        bad.append(('retained-nodes', None))
+    if r.get('parent_rows_after') != r.get('rows'):
+        bad.append(('cut-changes-the-face-variable-of-the-parent', None))
+    return bad
+
+
+def poly_stream(ctx, n):
+    cases = [{'id': i, 'poly': gen_poly(ctx.rng)} for i in range(n)]
+    res = run_impl(ctx, cases, tag='poly')
+    items, n_or = [], 0
+    for c in cases:
+        q, r = c['poly'], res[c['id']]
+        if 'error' in r:
+            ctx.violation('correspondence', {'poly': q, 'error': r['error'][-300:]}, 'harness runs every case',
+                          'child raised', 'correspondence C09 (polyhedron stream)', found_input=False,
+                          signature={'kind': 'harness-error', 'stream': 'polyhedron'})
+            continue
+        ctx.count('polyhedron-cut:' + ('raised' if r.get('raised') else 'ok'))
+        ctx.count('polyhedron-ids:' + q['idmode'])
+        ctx.case(['poly', q], nontrivial=r.get('raised') is None,
+                 sample={'node_ids': q['nodes']['ids'][:8], 'sel': q['sel'], 'result': (r.get('result') or {}).get('face_rows', [])[:1]})
+        for what, detail in poly_oracle(q, r):
+            n_or += 1
+            ctx.violation('impl-violation', {'poly': q}, 'retained polyhedra keep their faces (node ids per face), '
+                          'ids and connectivity; the result is self-contained',
+                          {'what': what, 'detail': detail, 'impl': r}, 'C09 oracle on the implementation (polyhedron cut)',
+                          found_input=True, signature={'op': 'cut_with_element_ids', 'elements': 'polyhedron', 'what': what},
+                          what=f'cut_with_element_ids on polyhedra: {what} {detail if detail else ""}')
+        if r.get('raised') is None:
+            o = r['result']
+            row0 = dict(zip(q['eids'], r['rows']))
+            pairs = '[' + ';'.join(f'({zl(row0[i])},{zl(row)})' for i, row in zip(o['face_ids'], o['face_rows'])
+                                   if i in row0) + ']'
+            conns = '[' + ';'.join(zl(x) for x in o['conn']) + ']'
+            items.append(f'({c["id"]}%nat, pcheck {zl(q["nodes"]["ids"])} {zl(o["nodes"])} {conns} {pairs})')
+    bad = coq_check(ctx, 'CorrPoly', [], items) if items else {}
+    if bad is None:
+        ctx.violation('correspondence', {'file': 'CorrPoly'}, 'scratch files compile', 'coqc failed',
+                      'correspondence C09 (polyhedron stream)', found_input=False,
+                      signature={'kind': 'corr-compile', 'stream': 'polyhedron'})
+        bad = {}
+    PC = {1: 'result nodes are not the sorted unique nodes of the retained elements',
+          2: 'face row differs from the model convert_polyhedron', 3: 'faces name other node ids than before',
+          4: 'generated row malformed (harness error)'}
+    for cid, codes in sorted(bad.items())[:4]:
+        ctx.violation('correspondence', {'poly': cases[cid]['poly']}, 'model and implementation return the same face rows',
+                      {'differs_in': [PC.get(k, k) for k in codes], 'impl': res[cid]},
+                      'correspondence C09 (Corr.pcheck / C09_convert_polyhedron)', found_input=True,
+                      signature={'kind': 'correspondence', 'op': 'cut_with_element_ids', 'elements': 'polyhedron',
+                                 'differs_in': ','.join(str(k) for k in codes)},
+                      what='polyhedron cut: model and implementation differ')
+    ctx.notes['polyhedron_stream'] = {'cases': len(cases), 'compared_in_coq': len(items), 'disagreements': len(bad),
+                                      'oracle_failures': n_or}
+    ctx.log(f'polyhedron stream: {len(cases)} cuts, {len(items)} compared in Coq, disagreements {len(bad)}, '
+            f'oracle failures {n_or}')
+    return len(items)
+
+
 # ------------------------------------------------------------ Coq literals
 def z(i):
     return str(int(i)) if i >= 0 else f'({int(i)})'
@@ -626,6 +787,45 @@ def oracle(m, op, r):
     return bad
 
 
+STALE_TAG = 'node-table-reordered-by-nodes.update-after-a-memoised-query'
+
+
+def hist_tag(c):
+    """the history on which a memoised query that answers in node storage positions goes stale:
+    an earlier call, then nodes.update(..., allow_overwrite=True) on a node table that is not stored
+    in ascending id order (combine_first re-sorts it), then the operation"""
+    if not c.get('first') or not c.get('mid'):
+        return None
+    ids = c['mesh']['nodes']['ids']
+    if any(e['k'] == 'nodes' for e in c['mid']) and ids != sorted(ids):
+        return STALE_TAG
+    return None
+
+
+def case_of(c):
+    return {'mesh': c['mesh'], 'pre': c['pre'], 'first': c['first'], 'mid': c.get('mid') or [], 'op': c['op']}
+
+
+def gen_mids(rng, m, ops):
+    """(operation, earlier call on the same object, edits between the two)"""
+    out = []
+    cand = [o for o in ops if o['k'] != 'RemoveUseless']
+    pick = rng.sample(cand, min(3, len(cand)))
+    ct = [o for o in cand if o['k'] == 'CutType']
+    if ct and ct[0] not in pick:
+        pick.append(ct[0])
+    for op in pick:
+        mid = [e for e in gen_pre(rng, m)]
+        if not mid:
+            continue
+        if rng.random() < 0.65:
+            first = op                                  # the same call before and after the edit
+        else:
+            first = rng.choice(cand + [{'k': 'ExtractSurface'}, {'k': 'ExtractFacets', 'remove_duplicates': True}])
+        out.append((op, first, mid))
+    return out
+
+
 def signature(op, what, detail):
     sig = {'op': OPNAME[op['k']], 'what': what}
     if isinstance(detail, dict) and 'order' in detail:
@@ -665,15 +865,44 @@ def main(ctx):
         'are outside the property: to_first_order/to_surface skip them by design, the cuts raise',
         'selections are duplicate-free',
     ]
-    tie_ok, cfg = True, None
+    tie_ok, cfg, degraded = True, None, None
     try:
         cfg, consumed = c09_cfg.translate(str(lib.REPO))
         ctx.sources = consumed
         lib.write_if_changed(lib.COQ / 'C09' / 'gen' / 'MeshCfg.v', c09_cfg.emit(cfg))
         ctx.notes['translated_cfg'] = cfg
     except (c09_cfg.TranslateError, SyntaxError, OSError) as e:
+        # policy (BUILDERS_R5): a region the translator cannot read is not by itself a violation.
+        # T -> H: the configuration / bodies of the registered tree become the hand model, the
+        # theorems are built against it and the correspondence is widened; only a disagreement
+        # (a failing input) or a correspondence that cannot run is reported.
+        degraded = str(e)
+        cfg = dict(c09_cfg.BASELINE)
+        ctx.log('translator could not read the source:', e, '-> baseline model + widened correspondence')
+        ctx.notes['translator_error'] = str(e)
+        try:
+            lib.write_if_changed(lib.COQ / 'C09' / 'gen' / 'MeshCfg.v', c09_cfg.emit(cfg))
+            n_mesh = max(n_mesh, 240)
+        except OSError as e2:
+            tie_ok = False
+            ctx.notes['translator_error'] += ' / ' + str(e2)
+    # the per-type table of FEMElementalAttribute._to_first_order (gen/FirstOrder.v)
+    fo_table, fo_degraded = None, None
+    try:
+        fo_table, consumed2 = c09_cfg.translate_first_order(str(lib.REPO))
+        ctx.sources = dict(ctx.sources or {}, **consumed2)
+        ctx.notes['translated_first_order_table'] = {k: v for k, v in fo_table.items() if v != 'same'}
+    except (c09_cfg.TranslateError, SyntaxError, OSError) as e:
+        fo_degraded = str(e)
+        fo_table = dict(c09_cfg.BASELINE_FIRST_ORDER)
+        ctx.log('translator could not read _to_first_order:', e, '-> baseline table + widened correspondence')
+        ctx.notes['translator_error_first_order'] = str(e)
+        degraded = (degraded + '; ' if degraded else '') + fo_degraded
+        n_mesh = max(n_mesh, 240)
+    try:
+        lib.write_if_changed(lib.COQ / 'C09' / 'gen' / 'FirstOrder.v', c09_cfg.emit_first_order(fo_table))
+    except OSError as e:
         tie_ok = False
-        ctx.log('translator failed closed:', e)
         ctx.notes['translator_error'] = str(e)
     proof_ok = False
     if tie_ok:
@@ -690,19 +919,20 @@ def main(ctx):
             ctx.obligations.append({'name': n, 'discharged': False, 'assumptions': [],
                                     'note': 'translator failed closed'})
         lib.coq_make(['C09/Corr.vo', 'C09/gen/MeshCfg.vo'])
+    validate_first_order(ctx, fo_table)
 
     # cases: corpus, witnesses, generated
     meshes, cases = [], []
 
-    def add(m, op, origin, pre=None, first=None):
+    def add(m, op, origin, pre=None, first=None, mid=None):
         if not meshes or meshes[-1] is not m:
             meshes.append(m)
         cases.append({'id': len(cases), 'mesh': m, 'mi': len(meshes) - 1, 'op': op, 'origin': origin,
-                      'pre': pre or [], 'first': first})
+                      'pre': pre or [], 'first': first, 'mid': mid or []})
     corpus_dir = lib.VERIF / 'corpus' / PID
     for p in sorted(corpus_dir.glob('*.json')) if corpus_dir.exists() else []:
         c = json.loads(p.read_text())
-        add(c['mesh'], c['op'], 'corpus:' + p.name, c.get('pre'), c.get('first'))
+        add(c['mesh'], c['op'], 'corpus:' + p.name, c.get('pre'), c.get('first'), c.get('mid'))
     for flag, m, op in WITNESSES:
         add(m, op, 'witness:' + flag)
     for _ in range(n_mesh):
@@ -719,10 +949,14 @@ def main(ctx):
         # repeated calls on the same object: every operation twice, and pairs
         for op, first in gen_pairs(ctx.rng, m, ops):
             add(m, op, 'random-second-call', None, first)
+        # histories  earlier call ; edit through the update API ; operation  on one object (a result
+        # remembered from the earlier call must not survive the edit)
+        for op, first, mid in gen_mids(ctx.rng, m, ops):
+            add(m, op, 'random-edit-between-calls', None, first, mid)
     for m, op in adversarial_cases():
         add(m, op, 'adversarial-packed-key')
     res = run_impl(ctx, [{'id': c['id'], 'mesh': c['mesh'], 'op': c['op'], 'pre': c['pre'],
-                          'first': c['first']} for c in cases])
+                          'first': c['first'], 'mid': c['mid']} for c in cases])
     herr = [r for r in res.values() if 'error' in r]
     if herr:
         ctx.log('harness errors:', len(herr), herr[0]['error'][-700:])
@@ -744,7 +978,8 @@ def main(ctx):
         ix, ch = ix_ch
         mis = sorted({c['mi'] for c in ch})
         defs = [f'Definition m{mi} : mesh row := {input_mesh_l(meshes[mi])}.' for mi in mis]
-        items = [f'({c["id"]}%nat, check cfg m{c["mi"]} {pre_l(c["pre"])} {rf(c)} {op_l(c["op"], res[c["id"]])} {obs_l(res[c["id"]])})'
+        items = [f'({c["id"]}%nat, check_h cfg m{c["mi"]} {pre_l(c["pre"])} {rf(c)} {pre_l(c["mid"])} '
+                 f'{op_l(c["op"], res[c["id"]])} {obs_l(res[c["id"]])})'
                  for c in ch]
         return coq_check(ctx, f'Corr{ix}', defs, items)
     with ThreadPoolExecutor(max_workers=12) as ex:
@@ -759,13 +994,18 @@ def main(ctx):
                 'scratch_files_not_compiling': compile_fail}
     ctx.log(f'correspondence: {len(usable)} cases on {len(meshes)} meshes, disagreements {len(bad)}, '
             f'compile failures {compile_fail}')
+    if degraded:
+        ctx.notes['tie'] = (f'H (translator could not read the source: {degraded}; baseline model + widened '
+                            f'correspondence, {len(usable)} cases)')
+        ctx.corr['degraded'] = ctx.notes['tie']
 
     for c in usable:
         r, m = res[c['id']], c['mesh']
         ctx.count('op:' + OPNAME[c['op']['k']] + (':raised' if r['raised'] else ''))
         ctx.count('earlier-call:' + (c['first']['k'] if c['first'] else 'none'))
         ctx.count('edited-before:' + ('+'.join(e['k'] for e in c['pre']) if c['pre'] else 'no'))
-        ctx.case([m['nodes'], m['elems'], m['nodal'], m['elemental'], c['pre'], c['first'], c['op']], nontrivial=not r['raised'],
+        ctx.count('edited-between-calls:' + ('+'.join(e['k'] for e in c['mid']) if c['mid'] else 'no'))
+        ctx.case([m['nodes'], m['elems'], m['nodal'], m['elemental'], c['pre'], c['first'], c['mid'], c['op']], nontrivial=not r['raised'],
                  sample={'mesh_kind': m['kind'], 'node_ids': m['nodes']['ids'][:8], 'op': c['op'],
                          'result_node_ids': (r.get('result') or {}).get('nodes', [])[:4]})
     for m in meshes:
@@ -781,7 +1021,7 @@ def main(ctx):
     oracle_bad = set()
     for c in usable:
         r = res[c['id']]
-        for what, detail in oracle(edited(c['mesh'], c['pre']), c['op'], r):
+        for what, detail in oracle(edited(c['mesh'], c['pre'] + c['mid']), c['op'], r):
             n_or += 1
             oracle_bad.add(c['id'])
             sig = signature(c['op'], what, detail)
@@ -792,11 +1032,19 @@ def main(ctx):
                 sig['after_update_of'] = '+'.join(sorted({e['k'] for e in c['pre']}))
             if c['first']:
                 sig['after_call_of'] = OPNAME.get(c['first']['k'], c['first']['k'])
-            ctx.violation('impl-violation', {'mesh': c['mesh'], 'pre': c['pre'], 'first': c['first'], 'op': c['op']},
+            if c['mid']:
+                sig['edited_between_calls'] = '+'.join(sorted({e['k'] for e in c['mid']}))
+            if hist_tag(c):
+                sig['history'] = hist_tag(c)
+                sig.pop('edited_between_calls', None)
+                sig.pop('what', None)       # one finding per (operation, earlier call), whatever shows first
+            ctx.violation('impl-violation', case_of(c),
                           'self-contained result; retained entities keep id, geometry and values',
                           {'what': what, 'detail': detail, 'result': r['result']},
                           'C09 oracle on the implementation', found_input=True, signature=sig,
                           what=f'{OPNAME[c["op"]["k"]]}: {what} {detail if detail else ""}')
+    n_poly = poly_stream(ctx, 120 if quick and not degraded else 600)
+    ctx.corr['polyhedron_cases'] = n_poly
     ctx.notes['search_evaluations'] = len(usable)
     ctx.notes['oracle_failures'] = n_or
     # a positional site must show through its witness
@@ -816,22 +1064,24 @@ def main(ctx):
         c = cases[cid]
         if 1 in codes and c['first'] and c['first']['k'] != 'RemoveUseless':
             oracle_bad.add(cid)
-            ctx.violation('impl-violation', {'mesh': c['mesh'], 'pre': c['pre'], 'first': c['first'], 'op': c['op']},
+            ctx.violation('impl-violation', case_of(c),
                           'the operation returns the same sub-mesh whatever was called before',
                           {'raised': res[cid].get('raised'), 'first_raised': res[cid].get('first_raised')},
                           'C09 correspondence (second call) / model is a function of the mesh', found_input=True,
-                          signature={'op': OPNAME[c['op']['k']], 'what': 'raises-after-an-earlier-call',
-                                     'after_call_of': OPNAME.get(c['first']['k'], c['first']['k'])},
+                          signature=dict({'op': OPNAME[c['op']['k']], 'what': 'raises-after-an-earlier-call',
+                                          'after_call_of': OPNAME.get(c['first']['k'], c['first']['k'])},
+                                         **({'history': hist_tag(c)} if hist_tag(c) else {})),
                           what=f"{OPNAME[c['op']['k']]} raises after {c['first']['k']} on the same object")
     for cid, codes in sorted(bad.items())[:6]:
         c = cases[cid]
-        ctx.violation('correspondence', {'mesh': c['mesh'], 'pre': c['pre'], 'first': c['first'], 'op': c['op']},
+        ctx.violation('correspondence', case_of(c),
                       'model and implementation return the same mesh',
                       {'differs_in': [CODES.get(k, k) for k in codes], 'impl': res[cid]},
                       'correspondence C09 (Corr.check)', found_input=cid in oracle_bad,
-                      signature={'kind': 'correspondence', 'op': OPNAME[c['op']['k']],
-                                 'differs_in': ','.join(str(k) for k in codes),
-                                 'after_call_of': (c['first'] or {}).get('k')},
+                      signature=dict({'kind': 'correspondence', 'op': OPNAME[c['op']['k']],
+                                      'differs_in': ','.join(str(k) for k in codes),
+                                      'after_call_of': OPNAME.get((c['first'] or {}).get('k'), (c['first'] or {}).get('k'))},
+                                     **({'history': hist_tag(c)} if hist_tag(c) else {})),
                       what='model and implementation differ')
     if compile_fail:
         ctx.violation('correspondence', {'files': compile_fail}, 'scratch files compile', 'coqc failed',
@@ -855,23 +1105,31 @@ def replay(path):
     rp = json.loads(Path(path).read_text())
     c = rp['case']
     ctx = lib.Ctx(PID, 'quick')
+    if 'poly' in c:
+        r = run_impl(ctx, [{'id': 0, 'poly': c['poly']}], tag='replay')[0]
+        print('implementation:', json.dumps(r)[:3000])
+        orc = poly_oracle(c['poly'], r) if 'error' not in r else [('harness-error', r['error'][-300:])]
+        print('property failures on the implementation:', orc)
+        print('property', 'VIOLATED' if orc else 'holds', 'on this input')
+        return 1 if orc else 0
     if 'mesh' not in c:
         print('nothing to replay on the implementation:', json.dumps(rp, indent=1)[:3000])
         return 1
     pre = c.get('pre') or []
-    r = run_impl(ctx, [{'id': 0, 'mesh': c['mesh'], 'op': c['op'], 'pre': pre, 'first': c.get('first')}],
+    mid = c.get('mid') or []
+    r = run_impl(ctx, [{'id': 0, 'mesh': c['mesh'], 'op': c['op'], 'pre': pre, 'first': c.get('first'), 'mid': mid}],
                  tag='replay')[0]
     if 'error' in r:
         print(r['error'])
         return 1
     print('implementation:', json.dumps({k: r.get(k) for k in ('raised', 'result', 'flags')})[:4000])
-    orc = oracle(edited(c['mesh'], pre), c['op'], r)
+    orc = oracle(edited(c['mesh'], pre + mid), c['op'], r)
     print('property failures on the implementation:', orc)
     lib.coq_make(['C09/Corr.vo', 'C09/gen/MeshCfg.vo'])
     badc = None
     if not ((c['op']['k'] == 'Surface' and 'surf' not in r) or (c['op']['k'] == 'Facets' and 'facets' not in r)):
         badc = coq_check(ctx, 'Replay', [f'Definition m0 : mesh row := {input_mesh_l(c["mesh"])}.'],
-                         [f'(0%nat, check cfg m0 {pre_l(pre)} {rf(c)} {op_l(c["op"], r)} {obs_l(r)})'])
+                         [f'(0%nat, check_h cfg m0 {pre_l(pre)} {rf(c)} {pre_l(mid)} {op_l(c["op"], r)} {obs_l(r)})'])
     print('model vs implementation (codes):', badc)
     print('property', 'VIOLATED' if orc else 'holds', 'on this input')
     return 1 if orc or badc else 0
